@@ -2,6 +2,7 @@ package main
 
 import (
 	"fmt"
+	"go/token"
 	"go/types"
 	"strings"
 
@@ -255,6 +256,25 @@ func (c *FnCtx) execCall(x *ssa.Call, common *ssa.CallCommon, st *State, reach *
 		args = append(args, TV{c.argTerm(a, st, &temps), a.Type()})
 	}
 	spec := c.calleeSpec(common)
+	// call-site obligations of the function under verification
+	if len(c.spec.CallPres) > 0 {
+		calleeName := ""
+		if obj != nil {
+			calleeName = objFullName(obj)
+		} else if f, ok := common.Value.(*ssa.Function); ok {
+			calleeName = f.String()
+		}
+		for i, cp := range c.spec.CallPres {
+			if calleeName != "" && strings.Contains(calleeName, cp.Name) {
+				tv, err := c.evalSpec(cp.E, c.envFor(st, c.entry))
+				if err != nil {
+					c.abort("callpre %d: %v", i+1, err)
+					return
+				}
+				c.oblige("callpre", fmt.Sprintf("%d@%s", i+1, c.posString(token.NoPos)), *reach, tv.t, "at call to "+calleeName+": "+cp.Text)
+			}
+		}
+	}
 	// built-in models of well-known library functions
 	if spec == nil && obj != nil {
 		if c.libraryModel(x, obj, common, args, st, reach, setResult) {
@@ -290,6 +310,8 @@ func (c *FnCtx) execCall(x *ssa.Call, common *ssa.CallCommon, st *State, reach *
 		c.abort("call to %s, whose contract has no frame", spec.Name)
 		return
 	}
+	// closures handed to a callee under contract may be run by it: what they write becomes arbitrary
+	c.havocClosureWrites(common, st)
 	names := calleeParamNames(spec, fullSig, common.IsInvoke())
 	results := c.applyContract(spec, fullSig, names, args, st, reach, deferred)
 	c.copyOut(st, temps)
